@@ -78,6 +78,11 @@ def gen_cases(rng, tier):
                 same = [x for x in lin if ctx.units[x]["cls"] == ctx.units[u]["cls"]]
                 n = rng.choice([0, 1, 2, 3, 5])
                 toks = [f"{_qty.tok(rng, _qty.amount(rng))}@{rng.choice(same)}" for _ in range(n)]
+                if n >= 2 and rng.random() < .2:
+                    # one item of another type somewhere in the sequence
+                    other = [x for x in lin if ctx.units[x]["cls"] != ctx.units[u]["cls"]]
+                    if other:
+                        toks[rng.randrange(1, n)] = f"{_qty.tok(rng, _qty.amount(rng))}@{rng.choice(other)}"
                 ops.append(["q_sum", ",".join(toks) if toks else "-", MODE])
         cases.append(_qty.case_of(ctx, ops, ["mix"]))
     return cases
@@ -129,6 +134,10 @@ def oracle(case, impl):
                 continue
             toks = o[1].split(",")
             u0 = toks[0].rpartition("@")[2]
+            if len({ctx.units[t.rpartition("@")[2]]["cls"] for t in toks}) > 1:
+                if out != "err IncompatibleUnitsError":
+                    fails.append({"site": "add:sum-mixed", "msg": f"{o} -> {out}"})
+                continue
             total = sum(_qty.tok_value(t.rpartition("@")[0]) * ctx.units[t.rpartition("@")[2]]["scale"]
                         for t in toks)
             exp = "ok " + ctx.qty(total / ctx.units[u0]["scale"], u0)
